@@ -79,9 +79,9 @@ impl ElixirRange {
         if self.is_empty() {
             return 0;
         }
-        let diff = (self.last - self.first).abs();
-        let step = self.step.abs();
-        ((diff / step) + 1) as usize
+        let diff = (self.last as i128 - self.first as i128).unsigned_abs();
+        let step = self.step.unsigned_abs() as u128;
+        usize::try_from(diff / step + 1).unwrap_or(usize::MAX)
     }
 
     /// Returns true if the range contains the given value.
@@ -91,9 +91,13 @@ impl ElixirRange {
             return false;
         }
         if self.step > 0 {
-            value >= self.first && value <= self.last && (value - self.first) % self.step == 0
+            value >= self.first
+                && value <= self.last
+                && (value as i128 - self.first as i128) % (self.step as i128) == 0
         } else {
-            value <= self.first && value >= self.last && (self.first - value) % (-self.step) == 0
+            value <= self.first
+                && value >= self.last
+                && (self.first as i128 - value as i128) % -(self.step as i128) == 0
         }
     }
 
@@ -178,7 +182,10 @@ impl Iterator for RangeIterator {
             if value == self.range.last {
                 self.done = true;
             } else {
-                self.current = self.current.saturating_add(self.range.step);
+                match self.current.checked_add(self.range.step) {
+                    Some(next) => self.current = next,
+                    None => self.done = true,
+                }
             }
         } else {
             if value < self.range.last {
@@ -188,7 +195,10 @@ impl Iterator for RangeIterator {
             if value == self.range.last {
                 self.done = true;
             } else {
-                self.current = self.current.saturating_add(self.range.step);
+                match self.current.checked_add(self.range.step) {
+                    Some(next) => self.current = next,
+                    None => self.done = true,
+                }
             }
         }
 
@@ -203,12 +213,14 @@ impl Iterator for RangeIterator {
             if self.current > self.range.last {
                 0
             } else {
-                (((self.range.last - self.current) / self.range.step) + 1) as usize
+                let diff = self.range.last as i128 - self.current as i128;
+                usize::try_from(diff / self.range.step as i128 + 1).unwrap_or(usize::MAX)
             }
         } else if self.current < self.range.last {
             0
         } else {
-            (((self.current - self.range.last) / (-self.range.step)) + 1) as usize
+            let diff = self.current as i128 - self.range.last as i128;
+            usize::try_from(diff / -(self.range.step as i128) + 1).unwrap_or(usize::MAX)
         };
         (remaining, Some(remaining))
     }
